@@ -221,8 +221,9 @@ class History:
             inner = rng.random() < 0.6
             raises = rng.random() < 0.4
             a1 = {'a%d' % rng.randint(0, 2): self.value(T, ns)}
-            b = {'b%d' % rng.randint(0, 2): self.value(T, ns)} \
-                if inner else None
+            # one or several complete inner blocks, one after another
+            b = [{'b%d' % rng.randint(0, 2): self.value(T, ns)}
+                 for _ in range(rng.choice([1, 2, 3]))] if inner else None
             a2 = {'c%d' % rng.randint(0, 2): self.value(T, ns)}
             op = ['session_nested', sid, ns, copy.deepcopy(a1),
                   copy.deepcopy(b), copy.deepcopy(a2), raises]
@@ -236,8 +237,8 @@ class History:
             if raises:
                 ctx.count('session_blocks_left_by_exception')
             self.model[(sid, ns)].update(a1)
-            if b:
-                self.model[(sid, ns)].update(b)
+            for bi in b or []:
+                self.model[(sid, ns)].update(bi)
             self.model[(sid, ns)].update(a2)
             op = ['get_session', sid, ns]
             self.ops.append(op)
